@@ -96,3 +96,31 @@ Definition wf_nalus (ns : list (list N)) : bool := forallb wf_nalu ns.
 Definition avc_type (hdr : N) : N := N.land hdr 31.
 Definition hevc_type (hdr : N) : N := N.land (N.shiftr hdr 1) 63.
 Definition hd0 (n : list N) : N := hd 0%N n.   (* units are non-empty under wf_nalu *)
+
+(* ---------- the "obvious list functions" the helpers are compared with ---------- *)
+Definition nonempty (n : list N) : bool := match n with [] => false | _ => true end.
+Definition walkable (ns : list (list N)) : bool := forallb (fun n => nonempty n && fits32 n) ns.
+
+Definition utype (ty : N -> N) (n : list N) : N := ty (hd0 n).
+(* types up to and including the first video unit *)
+Fixpoint types_upto (ty : N -> N) (isv : N -> bool) (ns : list (list N)) : list N :=
+  match ns with
+  | [] => []
+  | n :: t => utype ty n :: (if isv (utype ty n) then [] else types_upto ty isv t)
+  end.
+(* units strictly before the first video unit *)
+Fixpoint before_video (ty : N -> N) (isv : N -> bool) (ns : list (list N)) : list (list N) :=
+  match ns with
+  | [] => []
+  | n :: t => if isv (utype ty n) then [] else n :: before_video ty isv t
+  end.
+Definition of_type (ty : N -> N) (want : N) (ns : list (list N)) : list (list N) :=
+  filter (fun n => N.eqb (utype ty n) want) ns.
+Definition has_type (ty : N -> N) (want : N) (ns : list (list N)) : bool :=
+  existsb (fun n => N.eqb (utype ty n) want) ns.
+(* first video unit, [] when there is none *)
+Fixpoint first_video (ty : N -> N) (isv : N -> bool) (ns : list (list N)) : list N :=
+  match ns with
+  | [] => []
+  | n :: t => if isv (utype ty n) then n else first_video ty isv t
+  end.
